@@ -77,3 +77,9 @@ func VerifRecyclerStatus(res string) map[string]bool {
 	}
 	return out
 }
+
+// VerifRecover is the acknowledgement a successful completion on node gives to the resource's recycler
+// (what MetricStatSlot.OnCompleted does for a request without error).
+func VerifRecover(res, node string) {
+	getRecyclerOfResource(res).recover(node)
+}
